@@ -388,9 +388,106 @@ def _run_pools(c, col):
 
 
 def replay(v):
-    """the self-composition on the real modules with the same stubs (numbers from the model)"""
-    return False, ("self-composition counterexamples are confirmed by re-running the property's programs: "
-                   "see seeded/ and the model %s" % (v.get("model"),))
+    """the same self-composition on the REAL modules with concrete numbers from the model"""
+    c = v["config"]
+    m = v.get("model") or {}
+    if c["group"] == "exact":
+        return _replay_exact(c, m)
+    if c["group"] in ("call", "assemble", "pools"):
+        return _replay_driver(c, m, v)
+    return False, "kind?"
+
+
+def _replay_exact(c, m):
+    import math
+    import warnings
+    from mchap.application import call_exact as rce, baseclass as rbc
+    from mchap.calling import exact as rex
+    import mchap.io.vcf.formatfields as FORMAT
+    import mchap.io.vcf.columns as COLUMN
+
+    P, A = c["P"], c["A"]
+    haps = rnp.arange(A).reshape(A, 1).astype(rnp.int8)
+    F = float(m.get("F", 0.3)) if c["inbred"] else 0.0
+    if c.get("symf", True):
+        f = [float(m.get("f%d" % i, 1.0 / A)) for i in range(A - 1)]
+        f.append(1 - sum(f))
+    else:
+        f = [1.0 / A] * A
+
+    def table(reads, genotype):
+        if reads != "A":
+            h = sum((i + 2) * (int(r[0]) + 1) for i, r in enumerate(genotype)) + (7 if reads == "B" else 11)
+            return (1 + h % 9) / 8.0
+        return float(m.get("L_A_" + "_".join(str(int(r[0])) for r in genotype), 1.0))
+
+    names = ("_call_posterior_mode", "_posterior_allele_frequencies", "_genotype_likelihoods")
+    saved = {n: getattr(rex, n) for n in names}
+    saved_llk, saved_mec = rex.log_likelihood, rce.minimum_error_correction
+    fields = [FORMAT.GT, FORMAT.GQ, FORMAT.GPM, FORMAT.SPM, FORMAT.SQ, FORMAT.MCI, FORMAT.ACP, FORMAT.AFP, FORMAT.AOP, FORMAT.GP, FORMAT.GL, FORMAT.MEC, FORMAT.MECP]
+    outs = []
+    try:
+        for n in names:
+            setattr(rex, n, getattr(saved[n], "py_func", saved[n]))
+        rex.log_likelihood = lambda reads, genotype, read_counts=None: math.log(table(reads, genotype))
+        rce.minimum_error_correction = lambda calls, hh: rnp.zeros(1)
+        for samples in (["A"], ["A", "B"], ["Bprime", "A"]):
+            prog = rce.program.__new__(rce.program)
+            prog.info_fields = []
+            prog.format_fields = [FORMAT.GT, FORMAT.GPM, FORMAT.SPM, FORMAT.GP, FORMAT.AFP]
+            data = rbc.LocusAssemblyData(
+                locus=_Locus(haps, rnp.array(f)), samples=list(samples), sample_bams={s: "x" for s in samples}, sample_ploidy={s: P for s in samples},
+                sample_inbreeding={s: F for s in samples}, read_calls={s: rnp.zeros((1, 1), dtype=int) for s in samples},
+                read_dists={s: s for s in samples}, read_counts={s: None for s in samples}, infofields=[], formatfields=prog.format_fields,
+                columndata={COLUMN.REF: None, COLUMN.ALT: None, COLUMN.FILTER: []}, infodata={}, sampledata={f_: {} for f_ in fields})
+            with warnings.catch_warnings():
+                warnings.simplefilter("ignore")
+                out = prog.call_sample_genotypes(data)
+            sd = out.sampledata
+            outs.append(dict(GT=[int(a) for a in sd[FORMAT.GT]["A"]], GPM=float(sd[FORMAT.GPM]["A"]), SPM=float(sd[FORMAT.SPM]["A"]), GP=rnp.asarray(sd[FORMAT.GP]["A"], dtype=float)))
+    finally:
+        for n in names:
+            setattr(rex, n, saved[n])
+        rex.log_likelihood, rce.minimum_error_correction = saved_llk, saved_mec
+    a0 = outs[0]
+    for o, name in zip(outs[1:], ("together with sample B", "after sample B' (order swapped)")):
+        if o["GT"] != a0["GT"] or abs(o["GPM"] - a0["GPM"]) > 1e-9 or abs(o["SPM"] - a0["SPM"]) > 1e-9 or rnp.abs(o["GP"] - a0["GP"]).max() > 1e-6:
+            return True, "sample A alone: GT=%s GPM=%.5f GP=%s ; %s: GT=%s GPM=%.5f GP=%s" % (a0["GT"], a0["GPM"], rnp.round(a0["GP"], 4).tolist(), name, o["GT"], o["GPM"], rnp.round(o["GP"], 4).tolist())
+    return False, "sample A's column is identical in the three real runs"
+
+
+def _replay_driver(c, m, v):
+    """call / assemble / pools: run the same driver with the real modules in place of the shadow ones and the model's values"""
+    import importlib
+
+    real = {n: importlib.import_module(n) for n in ("mchap.application.call", "mchap.application.assemble", "mchap.application.baseclass", "mchap.io.vcf.formatfields",
+                                                    "mchap.io.vcf.infofields", "mchap.io.vcf.columns", "mchap.calling.classes", "mchap.assemble.classes", "mchap.application.arguments")}
+    saved_attrs = [(real[mn], a_, getattr(real[mn], a_)) for mn, a_ in (("mchap.application.call", "CallingMCMC"), ("mchap.application.call", "minimum_error_correction"), ("mchap.application.call", "qual_of_prob"),
+                                                                   ("mchap.application.assemble", "DenovoMCMC"), ("mchap.application.assemble", "minimum_error_correction"),
+                                                                   ("mchap.application.assemble", "qual_of_prob"), ("mchap.application.assemble", "natural_log_to_log10"))]
+    saved = (E.load, E.fresh_int, E.fresh_real)
+    E.load = lambda name, keep_init=False: real[name]
+    E.fresh_int = lambda ctx, name, lo, hi: z3.IntVal(max(lo, min(hi, int(m.get(name, lo)))))
+
+    def fr(ctx, name, lo=None, hi=None, lo_strict=True, hi_strict=True):
+        return z3.RealVal(repr(float(m.get(name, 0.5))))
+
+    E.fresh_real = fr
+    from checks.c07 import _OneShot
+
+    col = _OneShot()
+    col.check = lambda ctx, claim, site, kind, **k: (col.fails.append((kind, k.get("desc"), k.get("witness"))) if not z3.is_true(z3.simplify(claim)) else None)
+    try:
+        globals()["_run_" + c["group"]](c, col)
+    except Exception as e:
+        return False, "replay driver failed: %r" % (e,)
+    finally:
+        E.load, E.fresh_int, E.fresh_real = saved
+        for mod, a_, val in saved_attrs:
+            setattr(mod, a_, val)
+    if col.fails:
+        return True, "real modules: %s" % (col.fails[0][1],)
+    return False, "real modules: sample column unchanged"
 
 
 def validate(seed):
